@@ -21,6 +21,8 @@ def run(patch):
 jobs = []
 exp = json.load(open(os.path.join(here, "expect.json"))) if os.path.exists(os.path.join(here, "expect.json")) else {"seeded": {}}
 for sid in sorted(os.listdir(os.path.join(verif, "seeded"))):
+    if not os.path.isdir(os.path.join(verif, "seeded", sid)):
+        continue
     jobs.append(("seeded", sid, os.path.join(verif, "seeded", sid, "patch.diff"), exp.get("seeded", {}).get(sid, [sid.split("-")[0]])))
 syn = json.load(open(os.path.join(here, "synthetic", "expect.json")))
 for sid, props in sorted(syn.items()):
